@@ -1,12 +1,133 @@
 import CTM.Drive.Util
+import CTM.Model.Holm
+import CTM.Model.RefMarkers
 open Lean
 
 namespace CTM.Drive.RefMarkers
-open CTM CTM.Drive
+open CTM CTM.Drive CTM.Holm CTM.RefMarkers
 
-/-- ops of this module (stub: none yet) -/
-def handle : Handler := fun op _inp =>
+def parseTh (j : Json) : R Thresholds := do
+  return { pTh := ← asRat (← field j "pTh"), q1Th := ← asRat (← field j "q1Th"),
+           qdiffTh := ← asRat (← field j "qdiffTh"), foldTh := ← asRat (← field j "foldTh"),
+           q1Min := ← asRat (← field j "q1Min"), qdiffMin := ← asRat (← field j "qdiffMin"),
+           foldMin := ← asRat (← field j "foldMin") }
+
+def parseScores (j : Json) : R (List GeneScore) := do
+  let q1 ← ratList (← field j "q1")
+  let qd ← ratList (← field j "qdiff")
+  let fd ← ratList (← field j "fold")
+  if q1.length ≠ qd.length ∨ q1.length ≠ fd.length then .error "scores: lengths differ"
+  return List.zipWith (fun (a : Rat × Rat) c => { q1 := a.1, qdiff := a.2, fold := c }) (q1.zip qd) fd
+
+def parseGeneIdx (j : Json) : R (Option (List Nat)) := asOption natList (fieldD j "geneIdx" Json.null)
+
+def jBools (bs : List Bool) : Json := jList jBool bs
+def jRats (xs : List Rat) : Json := jList jRat xs
+
+def jExcept {α} (f : α → Json) : Except Err α → Json
+  | .ok a => jObj [("ok", f a)]
+  | .error e => jObj [("err", jStr e.name)]
+
+def jGeneDist (d : GeneDist) : Json :=
+  jObj [("true", jRat d.distSq), ("q1", jRat d.q1), ("qdiff", jRat d.qdiff), ("fold", jRat d.fold),
+        ("wgt", jRat d.wgt), ("invalid", jBool d.invalid)]
+
+def jOut (o : Out) : Json :=
+  let ud := upDown o
+  jObj [("valid", jBools o.valid), ("up", jBools o.up), ("upIdx", jNats ud.1), ("downIdx", jNats ud.2)]
+
+/-- an order handed in by the harness must be a genuine argsort -/
+def vetOrder (order : Option (List Nat)) (p : List Rat) : R (List Nat) :=
+  match order with
+  | none => .ok (argsort p)
+  | some o => if isArgsortB o p then .ok o else .error "order is not an argsort of p"
+
+def parseOrder (j : Json) (k : String) : R (Option (List Nat)) := asOption natList (fieldD j k Json.null)
+
+def handle : Handler := fun op inp =>
   match op with
+  | "refmarkers.holm" => some do
+      let p ← ratList (← field inp "p")
+      let pad ← asNat (fieldD inp "padding" (Json.num 0))
+      let o ← vetOrder (← parseOrder inp "order") p
+      return jRats (correctTtestWith o p pad)
+  | "refmarkers.holmApprox" => some do
+      let p ← ratList (← field inp "p")
+      let th ← asRat (← field inp "th")
+      let sub := gather (interestingIdx p th) p
+      let o ← vetOrder (← parseOrder inp "order") sub
+      return jRats (approxCorrectTtestWith o p th)
+  | "refmarkers.qscore" => some do
+      let p1 ← ratList (← field inp "p1")
+      let p2 ← ratList (← field inp "p2")
+      return jList (fun (a : Rat × Rat) => let q := qScore a.1 a.2; Json.arr #[jRat q.1, jRat q.2]) (p1.zip p2)
+  | "refmarkers.pij" => some do
+      let ge1 ← natList (← field inp "ge1")
+      let n ← asNat (← field inp "n")
+      return jRats (ge1.map (fun g => pij g n))
+  | "refmarkers.distance" => some do
+      let t ← parseTh (← field inp "th")
+      let q1 ← ratList (← field inp "q1")
+      let qd ← ratList (← field inp "qdiff")
+      let fd ← ratList (← field inp "fold")
+      return jExcept (jList jGeneDist) (penetranceParameterDistance t q1 qd fd)
+  | "refmarkers.penetrance" => some do
+      let t ← parseTh (← field inp "th")
+      let g ← parseScores inp
+      let exact ← asBool (← field inp "exact")
+      let nValid ← asNat (← field inp "nValid")
+      return jExcept jBools (penetranceTests t exact nValid g)
+  | "refmarkers.score" => some do
+      let t ← parseTh (← field inp "th")
+      let g ← parseScores inp
+      let praw ← ratList (← field inp "praw")
+      let c : Config := {
+        th := t, nCellsMin := ← asNat (fieldD inp "nCellsMin" (Json.num 2)),
+        exact := ← asBool (← field inp "exact"), nValid := ← asNat (← field inp "nValid"),
+        nValidMin := ← asNat (fieldD inp "nValidMin" (Json.num 10)), geneIdx := ← parseGeneIdx inp }
+      let n1 ← asNat (← field inp "n1")
+      let n2 ← asNat (← field inp "n2")
+      let m1 ← ratList (← field inp "mean1")
+      let m2 ← ratList (← field inp "mean2")
+      let o ← vetOrder (← parseOrder inp "order") (gather (interestingIdx praw t.pTh) praw)
+      return jExcept jOut (scoreCoreWith o c n1 n2 praw g m1 m2)
+  | "refmarkers.maskRow" => some do
+      let t ← parseTh (← field inp "th")
+      let g ← parseScores inp
+      let praw ← ratList (← field inp "praw")
+      let n1 ← asNat (← field inp "n1")
+      let n2 ← asNat (← field inp "n2")
+      return jExcept (jList (jPair jNat jRat)) (pValuesWorkerRow id t n1 n2 praw g)
+  | "refmarkers.validityFromMask" => some do
+      let nValid ← asNat (← field inp "nValid")
+      let nGenes ← asNat (← field inp "nGenes")
+      let row ← asList (asPair asNat asRat) (← field inp "row")
+      return jExcept jBools (getValidityMask nValid nGenes row (← parseGeneIdx inp))
+  | "refmarkers.sparse" => some do
+      let rows ← asList natList (← field inp "rows")
+      let nPer ← asNat (← field inp "nPer")
+      let d := lookupToSparse rows
+      let m := mergeSparse ((chunksOf nPer rows).map lookupToSparse)
+      return jObj [("direct", jPair jNats jNats d), ("merged", jPair jNats jNats m),
+                   ("chunks", jNat (chunksOf nPer rows).length)]
+  | "refmarkers.ttnu" => some do
+      let m1 ← ratList (← field inp "m1")
+      let v1 ← ratList (← field inp "v1")
+      let m2 ← ratList (← field inp "m2")
+      let v2 ← ratList (← field inp "v2")
+      let n1 ← asNat (← field inp "n1")
+      let n2 ← asNat (← field inp "n2")
+      let rows := List.zip (List.zip m1 v1) (List.zip m2 v2)
+      return jList (fun (r : (Rat × Rat) × (Rat × Rat)) =>
+        Json.arr #[jRat (welchTSq r.1.1 r.1.2 n1 r.2.1 r.2.2 n2), jOpt jRat (welchNu r.1.2 n1 r.2.2 n2)]) rows
+  | "refmarkers.pairs" => some do
+      let n ← asNat (← field inp "n")
+      return jList (jPair jNat jNat) (combos2 (List.range n))
+  | "refmarkers.consecutive" => some do
+      let idx ← natList (← field inp "idx")
+      return jExcept (fun _ => Json.null) (consecutiveCheck idx)
+  | "refmarkers.nPerMain" => some do
+      return jNat (nPerMain (← asNat (← field inp "nPairs")) (← asNat (← field inp "nProc")))
   | _ => none
 
 end CTM.Drive.RefMarkers
